@@ -460,10 +460,16 @@ func (t *Trie) updateRefCount(h util.Uint256, key []byte, index uint32) int32 {
 		data, err = getFromStore(key, t.mode, t.Store)
 		if err == nil {
 			cnt = int32(binary.LittleEndian.Uint32(data[len(data)-4:]))
+			// The slice belongs to the store (it can be the value kept by a
+			// lower cache layer), it must not be modified in place.
+			data = bytes.Clone(data)
 		}
 	}
 	if len(data) == 0 {
-		data = append(node.bytes, 1, 0, 0, 0, 0)
+		// node.bytes can be a part of a slice owned by the store (see
+		// getFromStore), appending to it directly would overwrite the suffix
+		// of the stored value.
+		data = append(bytes.Clone(node.bytes), 1, 0, 0, 0, 0)
 	}
 	cnt += node.refcount
 	switch {
